@@ -49,3 +49,18 @@ package ws
 //@   before call:set#1 assert n == OptionWebSocketCheckOrigin && is_bool(v) && bool_of(v) ==> isnil(l.ug.CheckOrigin)
 //@   before call:set#1 assert n == OptionWebSocketCheckOrigin && is_bool(v) && !bool_of(v) ==> !isnil(l.ug.CheckOrigin)
 //@   before call:set#1 assert arg0 == n && arg1 == v
+//@
+//@ func (options).set
+//@   ensures name != mangos.OptionNoDelay && name != OptionWebSocketCheckOrigin && name != mangos.OptionTLSConfig && name != mangos.OptionMaxRecvSize ==> result == mangos.ErrBadOption
+//@   ensures !isnil(result) ==> result == mangos.ErrBadOption || result == mangos.ErrBadValue
+//@   ensures name == mangos.OptionNoDelay ==> (isnil(result) <==> is_bool(val))
+//@   ensures name == OptionWebSocketCheckOrigin ==> (isnil(result) <==> is_bool(val))
+//@   ensures name == mangos.OptionMaxRecvSize ==> (isnil(result) <==> is_int(val))
+//@   ensures name == OptionWebSocketCheckOrigin && isnil(result) ==> has(o, name) && is_bool(o[name]) && bool_of(o[name]) == bool_of(val)
+//@   ensures name == mangos.OptionMaxRecvSize && isnil(result) ==> has(o, name) && is_int(o[name]) && int_of(o[name]) == int_of(val)
+//@   ensures !isnil(result) || name == mangos.OptionNoDelay ==> has(o, name) == old(has(o, name)) && (has(o, name) ==> o[name] == old(o[name]))
+//@
+//@ func (options).get
+//@   ensures name == mangos.OptionNoDelay ==> isnil(result1) && result0 == iface(true)
+//@   ensures name != mangos.OptionNoDelay && has(o, name) ==> isnil(result1) && result0 == o[name]
+//@   ensures name != mangos.OptionNoDelay && !has(o, name) ==> result1 == mangos.ErrBadOption && isnil(result0)
